@@ -43,9 +43,10 @@ ORaisedIsWriterError == \A w \in Writers : T.final[w][1] # "returned" => T.final
 OReturnedMeansStored == \A w \in Writers : (Returned(w) /\ ~T.dry) => (WriterEvents(w) # {} /\ E(LastOf(w)).dest.k = "new")
 ORaisedKeeps == \/ T.end.dest.k = "new" \/ (T.end.dest.k = T.dest0 /\ T.end.dest.k \in {"absent", "old"})
                 \/ (T.end.dest.k = "absent" /\ Kind = "py" /\ CompileFailed)
+OFailureSurfaces == \A i \in 1..N : (E(i).res = "err" /\ E(i).call \in IoSteps) => T.final[E(i).w][1] = "raised"
 ODryRunInert == T.dry => (N = 0 /\ T.unchanged /\ \A w \in Writers : Returned(w))
 Checks == << <<"NeverPartial", ONeverPartial>>, <<"NoTempLeft", ONoTempLeft>>, <<"RaisedIsWriterError", ORaisedIsWriterError>>,
-             <<"ReturnedMeansStored", OReturnedMeansStored>>, <<"RaisedKeeps", ORaisedKeeps>>, <<"DryRunInert", ODryRunInert>> >>
+             <<"ReturnedMeansStored", OReturnedMeansStored>>, <<"RaisedKeeps", ORaisedKeeps>>, <<"FailureSurfaces", OFailureSurfaces>>, <<"DryRunInert", ODryRunInert>> >>
 Failed == {Checks[i][1] : i \in {j \in DOMAIN Checks : ~Checks[j][2]}}
 FinalOk == \A w \in Writers : pc[w] = T.final[w][1] /\ (pc[w] = "raised" => cls[w] = T.final[w][2])
 Done == (l > N) \/ driftAt # 0
